@@ -786,7 +786,15 @@ int reb_collision_resolve_merge(struct reb_simulation* const r, struct reb_colli
     struct reb_particle* pi = &(r->particles[i]);
     struct reb_particle* pj = &(r->particles[j]);
                 
-    double invmass = 1.0/(pi->m + pj->m);
+    // Weights of the two particles in the averages below. Two massless (test) particles would give 0*(1/0) = NaN
+    // (and a NaN particle then passes every overlap test): they are merged at the midpoint instead.
+    double wi = pi->m;
+    double wj = pj->m;
+    if (wi + wj == 0.){
+        wi = 1.;
+        wj = 1.;
+    }
+    double invmass = 1.0/(wi + wj);
     
     //Scale out energy from collision - initial energy
     double Ei=0, Ef=0;
@@ -841,12 +849,12 @@ int reb_collision_resolve_merge(struct reb_simulation* const r, struct reb_colli
     }
     
     // Merge by conserving mass, volume and momentum
-    pi->vx = (pi->vx*pi->m + pj->vx*pj->m)*invmass;
-    pi->vy = (pi->vy*pi->m + pj->vy*pj->m)*invmass;
-    pi->vz = (pi->vz*pi->m + pj->vz*pj->m)*invmass;
-    pi->x  = (pi->x*pi->m + pj->x*pj->m)*invmass;
-    pi->y  = (pi->y*pi->m + pj->y*pj->m)*invmass;
-    pi->z  = (pi->z*pi->m + pj->z*pj->m)*invmass;
+    pi->vx = (pi->vx*wi + pj->vx*wj)*invmass;
+    pi->vy = (pi->vy*wi + pj->vy*wj)*invmass;
+    pi->vz = (pi->vz*wi + pj->vz*wj)*invmass;
+    pi->x  = (pi->x*wi + pj->x*wj)*invmass;
+    pi->y  = (pi->y*wi + pj->y*wj)*invmass;
+    pi->z  = (pi->z*wi + pj->z*wj)*invmass;
     pi->m  = pi->m + pj->m;
     pi->r  = cbrt(pi->r*pi->r*pi->r + pj->r*pj->r*pj->r);
     pi->last_collision = r->t;
